@@ -504,6 +504,28 @@ pub fn run(ctx: &Ctx) {
             CaseOutcome::Known(k) => ctx.known_hit(&k, 1),
         }
     }
+    // a one-line source without a final newline (nothing but the statement line itself for the report to cite)
+    for (n, ah, supported) in [(0x21u8, 5u8, false), (0x10, 2, false), (0x21, 0x4C, false), (0x10, 0x0E, false), (0x21, 2, true)] {
+        let src = format!("start: mov dl, 33 mov ah, {} int 0x{:02X}", ah, n);
+        let out = run_cli(src.as_bytes(), Stdin::Closed, false, 1 << 20, 20_000);
+        ctx.add_evals(1);
+        let replay = json!({"kind":"cli","source":src,"stdin":"","interpreted":false});
+        if matches!(out.status, Status::Timeout | Status::SpawnError(_)) {
+            ctx.inconclusive(&format!("one-line program: {:?}", out.status));
+            continue;
+        }
+        let so = out.out_str();
+        if !out.clean() {
+            ctx.fail(Failure { key: "c18|one-line|abnormal-exit".into(), what: format!("{:?}: status {:?} {}", src, out.status, out.err_str().lines().next().unwrap_or("")), replay });
+        } else if supported && !so.contains('!') {
+            ctx.fail(Failure { key: "c18|one-line|no-output".into(), what: format!("{:?}: the character was not written (stdout {:?})", src, so), replay });
+        } else if !supported && !(so.contains("not supported") && so.contains("Exiting")) {
+            ctx.fail(Failure { key: "c18|one-line|unsupported-not-reported".into(), what: format!("{:?}: unsupported AH not reported (stdout {:?})", src, so), replay });
+        } else {
+            ctx.add_nontrivial(1);
+            ctx.class("c18/one-line-program", 1);
+        }
+    }
     for k in ["c18/21h-01", "c18/21h-02", "c18/21h-0A", "c18/10h-0A", "c18/10h-13", "c18/line-longer-than-capacity", "c18/capacity-0", "c18/buffer-near-or-across-2^20", "c18/string-across-2^20", "c18/string-starts-at-or-beyond-2^20", "c18/cx>=256", "c18/stdin-closed", "c18/stdin-ends-early", "c18/stdin-no-final-newline", "c18/char>=80h"] {
         ctx.require_class(k, 20);
     }
